@@ -596,6 +596,11 @@ func (r *ChunkReader) NextChunk() (Chunk, error) {
 			}
 		}
 		for n := int32(r.currNode.arity()); r.nextChunk < n; {
+			if i := int(r.nextChunk); !r.currNode.isLeaf(i) && (r.currNode.dSize(i) != 0) {
+				// A non-empty branch node is not a chunk: walk down into it.
+				r.seekPosition = r.currNode.dOff(i, r.currNodeDBias)
+				break
+			}
 			c := r.currNode.chunk(int(r.nextChunk), r.currNodeCBias, r.currNodeDBias)
 			r.nextChunk++
 			r.seekPosition = c.DRange[1]
